@@ -183,10 +183,10 @@ def run_file_case(case, res: CaseResult):
         ex, a, b = worst
         if len(timeline) == 1:
             kind = 'C20/window-excess:constant-limit'
-        elif out.get('active_at_change') and ex <= 128 * out['active_at_change'] + 1e-6:
-            kind = 'C20/window-excess:limit-change-with-waiter'
-        elif ex <= 128 + 1e-6:
+        elif ex <= 128 * (len(timeline) - 1) + 1e-6:
             kind = 'C20/window-excess:limit-change:le128'
+        elif out.get('active_at_change') and ex <= 128 * (len(timeline) - 1 + out['active_at_change']) + 1e-6:
+            kind = 'C20/window-excess:limit-change-with-waiter'
         else:
             kind = 'C20/window-excess:limit-change:gt128'
         res.violate(kind, f'file tier ({"send_file" if upload else "receive_file"}): excess={ex:.1f} bytes in window '
